@@ -142,6 +142,44 @@ def replay(ctx, binp, part, r, name, reps, nk=2, nb=2, every=1):
     return total
 
 
+def random_histories(ctx, binp, n):
+    trace = os.path.join(ctx.work, "trace.ndjson")
+    resf = os.path.join(ctx.work, "random.json")
+    ctx.run([binp, "random", "-n", str(n), "-out", trace, "-res", resf, "-nk", "3", "-nb", "2"], timeout=1800)
+    res = json.load(open(resf))
+    for c in res["classes"]:          # panics inside the bridges
+        sig = dict(c["sig"])
+        sig["dir"] = "random"
+        for _ in range(c["count"]):
+            ctx.violation(sig, replay={"ops": c["example"].get("path"), "detail": c["example"].get("detail")})
+    viols, accepted = ctx.validate_trace(S, "Trace_Bridge", "Trace_Bridge.cfg", trace, timeout=3000)
+    ctx.traces_validated += n
+    ctx.evaluations += res["evaluations"]
+    ctx.extra["random_scenarios"] = n
+    ctx.extra["random_counters"] = res.get("counters", {})
+    ctx.extra["trace_lines_validated"] = accepted
+    ctx.add_samples(res["samples"][:1])
+    lines = None
+    for v in viols:
+        if lines is None:
+            lines = open(trace).read().splitlines()
+        rec = json.loads(lines[v["line"] - 1])
+        scen = []
+        i = v["line"] - 1
+        while i >= 0:
+            r = json.loads(lines[i])
+            if r["ev"] == "New":
+                break
+            scen.append(r["op"])
+            i -= 1
+        scen.reverse()
+        for d in v["diffs"]:
+            field = ("spans." + d["field"]) if d["span"] > 0 else d["field"]
+            sig = {"part": v["part"], "kind": "out" if field.startswith("out") else "state", "field": field, "dir": "random"}
+            sig.update(rec["facts"][d["span"]])
+            ctx.violation(sig, replay={"ops": scen, "span": d["span"], "obs": rec["obs"], "out": rec["out"], "line": v["line"]})
+
+
 def run(ctx):
     thorough = ctx.tier == "thorough"
     binp = go_build(ctx)
@@ -167,6 +205,9 @@ def run(ctx):
     r = ctx.tlc(S, "MC_Composite", "MC_Composite.cfg", defines=d, want_edges=True, name="composite", timeout=900, heap="2g")
     edges["composite"] = replay(ctx, binp, "cp", r, "composite", [0, 1, 2] if thorough else [ctx.seed % 3, (ctx.seed + 1) % 3])
     ctx.extra["edges_replayed"] = edges
+    # ---- code -> spec: seeded random histories on both bridges, judged by Trace_Bridge.tla
+    if "random" in parts:
+        random_histories(ctx, binp, 3000 if thorough else 300)
     ctx.assumptions += [
         "symbols (names, keys, values) stand for the representatives in harness_x03/common.go; the representative index is "
         "the seed (quick) or every index (thorough)",
